@@ -23,6 +23,26 @@ pub struct Case {
     pub zero: Vec<Vec<bool>>,
     /// direct test of the Derivative container: (op, rows, cols, inner, a entries, b entries, scalar)
     pub deriv: Option<DerivCase>,
+    /// driver functions called with closures whose constants are absent / explicit zeros
+    #[serde(default)]
+    pub drv: Option<DrvCase>,
+}
+
+#[derive(Clone, Debug, Serialize, Deserialize)]
+pub struct DrvCase {
+    /// 0 gradient, 1 jacobian, 2 hessian, 3 partial_hessian
+    pub driver: u8,
+    pub n: u8,
+    pub n2: u8,
+    pub m: u8,
+    /// static sizes (2 and 3) instead of dynamic ones
+    pub stat: bool,
+    pub x: Vec<f64>,
+    /// constants of the function (1..=2), handed to the program as extra inputs
+    pub consts: Vec<f64>,
+    pub raw: Vec<RawOp>,
+    /// per output: 0/1 a program node, 2 a constant, 3 a variable
+    pub outsel: Vec<u8>,
 }
 
 #[derive(Clone, Debug, Serialize, Deserialize)]
@@ -252,6 +272,246 @@ fn deriv_case(d: &DerivCase, st: &mut Stats) -> Verdict {
     Verdict::Pass { nontrivial: (d.a_zero ^ d.b_zero) && matches!(op, 3 | 4 | 5 | 15 | 6 | 7) }
 }
 
+// ---------------------------------------------------------------------------------------------
+// driver functions: the constants of the differentiated function are absent or explicit zeros
+// ---------------------------------------------------------------------------------------------
+
+use nalgebra::allocator::Allocator;
+use nalgebra::{Const, DefaultAllocator, Dim, OMatrix, OVector, U1};
+use num_dual::{gradient, hessian, jacobian, partial_hessian, try_jacobian, Dual2Vec, DualVec, HyperDualVec};
+
+fn zeros<R: Dim, C: Dim>(r: usize, c: usize) -> OMatrix<f64, R, C>
+where
+    DefaultAllocator: Allocator<R, C>,
+{
+    OMatrix::<f64, R, C>::zeros_generic(R::from_usize(r), C::from_usize(c))
+}
+fn dflat<R: Dim, C: Dim>(out: &mut Vec<f64>, m: &OMatrix<f64, R, C>)
+where
+    DefaultAllocator: Allocator<R, C>,
+{
+    out.push(m.nrows() as f64);
+    out.push(m.ncols() as f64);
+    for i in 0..m.nrows() {
+        for j in 0..m.ncols() {
+            out.push(m[(i, j)]);
+        }
+    }
+}
+
+struct Fun7 {
+    prog: Program,
+    consts: Vec<f64>,
+    nvar: usize,
+}
+impl Fun7 {
+    /// evaluate with the variables given by the driver; constant j is built by `mk(value, block mask)`
+    fn eval<D: DualNum<f64>>(&self, vars: Vec<D>, mask: u32, nb: usize, mk: &dyn Fn(f64, u32) -> D) -> Vec<D> {
+        let mut ins = vars;
+        for (j, k) in self.consts.iter().enumerate() {
+            ins.push(mk(*k, (mask >> (j * nb)) & ((1 << nb) - 1)));
+        }
+        let all = eval_lib::<D, f64>(&self.prog, &ins);
+        self.prog.outs.iter().map(|o| all[*o].clone()).collect()
+    }
+}
+
+fn drv_gradient<D: Dim>(f: &Fun7, x: &[f64], mask: u32) -> Vec<f64>
+where
+    DefaultAllocator: Allocator<D> + Allocator<U1, D> + Allocator<D, D>,
+{
+    let n = x.len();
+    let xv = OVector::<f64, D>::from_fn_generic(D::from_usize(n), U1, |i, _| x[i]);
+    let mk = |k: f64, m: u32| -> DualVec<f64, f64, D> { DualVec::new(k, if m & 1 == 1 { Derivative::none() } else { Derivative::some(zeros::<D, U1>(n, 1)) }) };
+    let (v, g) = gradient(|xs: OVector<DualVec<f64, f64, D>, D>| f.eval(xs.iter().cloned().collect(), mask, 1, &mk)[0].clone(), xv);
+    let mut out = vec![v];
+    dflat(&mut out, &g);
+    out
+}
+fn drv_jacobian<M: Dim, N: Dim>(f: &Fun7, x: &[f64], m: usize, mask: u32, try_variant: bool) -> Vec<f64>
+where
+    DefaultAllocator: Allocator<M> + Allocator<N> + Allocator<M, N> + Allocator<U1, N> + Allocator<N, N>,
+{
+    let n = x.len();
+    let xv = OVector::<f64, N>::from_fn_generic(N::from_usize(n), U1, |i, _| x[i]);
+    let mk = |k: f64, mm: u32| -> DualVec<f64, f64, N> { DualVec::new(k, if mm & 1 == 1 { Derivative::none() } else { Derivative::some(zeros::<N, U1>(n, 1)) }) };
+    let g = |xs: OVector<DualVec<f64, f64, N>, N>| {
+        let o = f.eval(xs.iter().cloned().collect(), mask, 1, &mk);
+        OVector::<DualVec<f64, f64, N>, M>::from_fn_generic(M::from_usize(m), U1, |i, _| o[i].clone())
+    };
+    let (v, j) = if try_variant { try_jacobian(|xs| Ok::<_, ()>(g(xs)), xv).unwrap() } else { jacobian(g, xv) };
+    let mut out = vec![];
+    dflat(&mut out, &v);
+    dflat(&mut out, &j);
+    out
+}
+fn drv_hessian<D: Dim>(f: &Fun7, x: &[f64], mask: u32) -> Vec<f64>
+where
+    DefaultAllocator: Allocator<D> + Allocator<U1, D> + Allocator<D, D>,
+{
+    let n = x.len();
+    let xv = OVector::<f64, D>::from_fn_generic(D::from_usize(n), U1, |i, _| x[i]);
+    let mk = |k: f64, m: u32| -> Dual2Vec<f64, f64, D> {
+        Dual2Vec::new(
+            k,
+            if m & 1 == 1 { Derivative::none() } else { Derivative::some(zeros::<U1, D>(1, n)) },
+            if m & 2 == 2 { Derivative::none() } else { Derivative::some(zeros::<D, D>(n, n)) },
+        )
+    };
+    let (v, g, h) = hessian(|xs: OVector<Dual2Vec<f64, f64, D>, D>| f.eval(xs.iter().cloned().collect(), mask, 2, &mk)[0].clone(), xv);
+    let mut out = vec![v];
+    dflat(&mut out, &g);
+    dflat(&mut out, &h);
+    out
+}
+fn drv_partial_hessian<M: Dim, N: Dim>(f: &Fun7, x: &[f64], nx: usize, mask: u32) -> Vec<f64>
+where
+    DefaultAllocator: Allocator<M> + Allocator<N> + Allocator<M, N> + Allocator<U1, N> + Allocator<U1, M> + Allocator<M, M> + Allocator<N, N>,
+{
+    let ny = x.len() - nx;
+    let xv = OVector::<f64, M>::from_fn_generic(M::from_usize(nx), U1, |i, _| x[i]);
+    let yv = OVector::<f64, N>::from_fn_generic(N::from_usize(ny), U1, |i, _| x[nx + i]);
+    type H<M, N> = HyperDualVec<f64, f64, M, N>;
+    let mk = |k: f64, m: u32| -> H<M, N> {
+        HyperDualVec::new(
+            k,
+            if m & 1 == 1 { Derivative::none() } else { Derivative::some(zeros::<M, U1>(nx, 1)) },
+            if m & 2 == 2 { Derivative::none() } else { Derivative::some(zeros::<U1, N>(1, ny)) },
+            if m & 4 == 4 { Derivative::none() } else { Derivative::some(zeros::<M, N>(nx, ny)) },
+        )
+    };
+    let (v, gx, gy, h) = partial_hessian(|xs: OVector<H<M, N>, M>, ys: OVector<H<M, N>, N>| f.eval(xs.iter().cloned().chain(ys.iter().cloned()).collect(), mask, 3, &mk)[0].clone(), xv, yv);
+    let mut out = vec![v];
+    dflat(&mut out, &gx);
+    dflat(&mut out, &gy);
+    dflat(&mut out, &h);
+    out
+}
+
+const DRIVER_NAMES: [&str; 5] = ["gradient", "jacobian", "hessian", "partial_hessian", "try_jacobian"];
+
+fn drv_case(d: &DrvCase, st: &mut Stats) -> Verdict {
+    let driver = (d.driver % 5) as usize;
+    let (n, n2, m) = if d.stat {
+        match driver {
+            1 | 4 => (2usize, 0usize, 3usize),
+            3 => (2, 3, 1),
+            _ => (2 + (d.n as usize % 2), 0, 1),
+        }
+    } else {
+        (1 + d.n as usize % 4, if driver == 3 { 1 + d.n2 as usize % 3 } else { 0 }, if matches!(driver, 1 | 4) { 1 + d.m as usize % 4 } else { 1 })
+    };
+    let nvar = n + n2;
+    let x: Vec<f64> = (0..nvar).map(|i| d.x[i % d.x.len()] + 0.125 * (i / d.x.len()) as f64).collect();
+    let nc = d.consts.len().clamp(1, 2);
+    let consts: Vec<f64> = d.consts[..nc].to_vec();
+    let mut all_in = x.clone();
+    all_in.extend_from_slice(&consts);
+    let (mut prog, _) = resolve(&all_in, &d.raw, m);
+    while prog.outs.len() < m {
+        let l = *prog.outs.last().unwrap();
+        prog.outs.push(l);
+    }
+    // some outputs are a bare constant or a bare variable
+    for o in 0..m {
+        match d.outsel[o % d.outsel.len()] % 4 {
+            2 => prog.outs[o] = nvar + (o % nc),
+            3 => prog.outs[o] = o % nvar,
+            _ => {}
+        }
+    }
+    let f = Fun7 { prog, consts, nvar };
+    let nb = match driver {
+        2 => 2,
+        3 => 3,
+        _ => 1,
+    };
+    let bits = nb * nc;
+    let run = |mask: u32| -> Vec<f64> {
+        match (driver, d.stat) {
+            (0, false) => drv_gradient::<Dyn>(&f, &x, mask),
+            (0, true) => {
+                if n == 2 {
+                    drv_gradient::<Const<2>>(&f, &x, mask)
+                } else {
+                    drv_gradient::<Const<3>>(&f, &x, mask)
+                }
+            }
+            (1, false) => drv_jacobian::<Dyn, Dyn>(&f, &x, m, mask, false),
+            (1, true) => drv_jacobian::<Const<3>, Const<2>>(&f, &x, m, mask, false),
+            (4, false) => drv_jacobian::<Dyn, Dyn>(&f, &x, m, mask, true),
+            (4, true) => drv_jacobian::<Const<3>, Const<2>>(&f, &x, m, mask, true),
+            (2, false) => drv_hessian::<Dyn>(&f, &x, mask),
+            (2, true) => {
+                if n == 2 {
+                    drv_hessian::<Const<2>>(&f, &x, mask)
+                } else {
+                    drv_hessian::<Const<3>>(&f, &x, mask)
+                }
+            }
+            (_, false) => drv_partial_hessian::<Dyn, Dyn>(&f, &x, n, mask),
+            (_, true) => drv_partial_hessian::<Const<2>, Const<3>>(&f, &x, n, mask),
+        }
+    };
+    let base = run(0);
+    if base.iter().any(|v| !v.is_finite()) {
+        return Verdict::Trivial("non-finite intermediate (0*inf is out of domain)");
+    }
+    for mask in 1u32..(1 << bits) {
+        let r = run(mask);
+        if r.len() != base.len() || r.iter().zip(base.iter()).any(|(a, b)| !(a == b)) {
+            return Verdict::Fail {
+                sig: format!("C07/driver/{}", DRIVER_NAMES[driver]),
+                why: format!(
+                    "{} ({}, n={n}{} m={m}) returns {:?} when the constants of the function carry explicit zero parts but {:?} when their parts (mask {mask:#b}) are absent; function of x0..x{} and constants c = {:?} (inputs n{}..): {}; outputs {:?}; point {:?}",
+                    DRIVER_NAMES[driver],
+                    if d.stat { "static" } else { "dynamic" },
+                    if n2 > 0 { format!("+{n2}") } else { String::new() },
+                    base,
+                    r,
+                    nvar - 1,
+                    f.consts,
+                    nvar,
+                    render(&f.prog),
+                    f.prog.outs,
+                    x
+                ),
+            };
+        }
+    }
+    st.count("representations_compared", (1u64 << bits) - 1);
+    st.class(&format!("driver:{}", DRIVER_NAMES[driver]));
+    // non-trivial: a constant is used by the function; for jacobians a bare-constant output precedes
+    // an output that depends on the variables
+    let is_c = |i: usize| i >= f.nvar && i < f.nvar + nc;
+    let used = f.prog.outs.iter().any(|o| is_c(*o)) || f.prog.ops.iter().any(|op| op_operands(op).iter().any(|i| is_c(*i)));
+    let nontrivial = if matches!(driver, 1 | 4) {
+        let first_const = f.prog.outs.iter().position(|o| is_c(*o));
+        let last_var = f.prog.outs.iter().rposition(|o| !is_c(*o));
+        let shifted = matches!((first_const, last_var), (Some(a), Some(b)) if a < b);
+        if shifted {
+            st.class("jacobian: a constant output precedes a non-constant output");
+        }
+        used && shifted
+    } else {
+        used
+    };
+    if nontrivial && st.wants_sample() {
+        st.sample(|| json!({"driver": DRIVER_NAMES[driver], "static": d.stat, "function": render(&f.prog), "outputs": f.prog.outs, "constants": f.consts, "point": x, "representations": 1u64 << bits, "result": base}));
+    }
+    Verdict::Pass { nontrivial }
+}
+
+fn op_operands(op: &Op) -> Vec<usize> {
+    match op {
+        Op::Input(_) | Op::Const(_) | Op::ConstI(_) => vec![],
+        Op::Un(_, a) | Op::SinCos(a, _) | Op::Powi(a, _) | Op::Powf(a, _) | Op::Log(a, _) | Op::Neg(a) | Op::Inv(a) | Op::BinS(_, _, a, _) | Op::RBinS(_, a, _) => vec![*a],
+        Op::Powd(a, b) | Op::Atan2(a, b) | Op::Bin(_, _, a, b) => vec![*a, *b],
+        Op::MulAdd(a, b, c) => vec![*a, *b, *c],
+        Op::Sum(l) | Op::Product(l) => l.clone(),
+    }
+}
+
 fn history_op() -> impl Strategy<Value = RawOp> {
     // compound assignments and scalar ops applied to the accumulator (the last node)
     let code = prop_oneof![8 => 42u8..46, 4 => 46u8..50, 3 => 34u8..42, 2 => 0u8..24, 1 => Just(51u8)];
@@ -273,7 +533,7 @@ impl Property for C07 {
             proptest::collection::vec(parts_pool(), 3),
             proptest::collection::vec(proptest::collection::vec(proptest::bool::weighted(0.45), 3), 3),
         )
-            .prop_map(move |((ti, dims), x, raw, parts, zero)| Case { ty: types[ti], dims, x, raw, parts, zero, deriv: None });
+            .prop_map(move |((ti, dims), x, raw, parts, zero)| Case { ty: types[ti], dims, x, raw, parts, zero, deriv: None, drv: None });
         let dcase = (
             (0u8..18, any::<u8>(), any::<u8>(), any::<u8>()),
             proptest::collection::vec(-16i8..=16, 9),
@@ -288,10 +548,34 @@ impl Property for C07 {
                 parts: vec![vec![0.0]],
                 zero: vec![vec![false]],
                 deriv: Some(DerivCase { op, rows, cols, inner, a, b, a_zero, b_zero, s }),
+                drv: None,
             });
-        prop_oneof![9 => prog_case, 1 => dcase].boxed()
+        let drv = (
+            (0u8..5, any::<u8>(), any::<u8>(), any::<u8>(), proptest::bool::weighted(0.3)),
+            proptest::collection::vec(c03::input_real(), 4),
+            proptest::collection::vec(c03::input_real(), 1..=2),
+            proptest::collection::vec(raw_op(), 1..=max_nodes),
+            proptest::collection::vec(0u8..4, 4),
+        )
+            .prop_map(|((driver, n, n2, m, stat), x, consts, raw, outsel)| Case {
+                ty: 11,
+                dims: (0, 0),
+                x: vec![1.0],
+                raw: vec![],
+                parts: vec![vec![0.0]],
+                zero: vec![vec![false]],
+                deriv: None,
+                drv: Some(DrvCase { driver, n, n2, m, stat, x, consts, raw, outsel }),
+            });
+        prop_oneof![8 => prog_case, 1 => dcase, 1 => drv].boxed()
     }
     fn check(case: &Case, st: &mut Stats) -> Verdict {
+        if let Some(d) = &case.drv {
+            if d.x.is_empty() || d.consts.is_empty() || d.raw.is_empty() || d.outsel.is_empty() || d.x.iter().chain(d.consts.iter()).any(|x| !x.is_finite() || x.abs() > 1e3) || d.raw.iter().any(|r| !r.k.is_finite() || r.k.abs() > 1.0) {
+                return Verdict::Trivial("malformed case");
+            }
+            return drv_case(d, st);
+        }
         if let Some(d) = &case.deriv {
             if d.a.is_empty() || d.b.is_empty() {
                 return Verdict::Trivial("malformed case");
@@ -311,7 +595,7 @@ impl Property for C07 {
         {
             return Verdict::Trivial("malformed case");
         }
-        let dims = [case.dims.0 as usize, case.dims.1 as usize];
+        let dims = [case.dims.0 as usize % 7, case.dims.1 as usize % 7];
         dispatch(case.ty, &dims, V { case, st })
     }
     fn cases(tier: Tier) -> u64 {
@@ -321,7 +605,7 @@ impl Property for C07 {
         }
     }
     fn rule() -> String {
-        "generated: a program (as in C03) or a HISTORY (a sequence of compound assignments += -= *= /= with dual and scalar right-hand sides, scalar ops and unary functions applied to an accumulator) on every type with optional parts (DualVec, Dual2Vec, HyperDualVec static and dynamic, nested ones); inputs whose optional blocks are all-zero with probability 45% are marked, and ALL 2^k representations (absent vs explicit zeros) of the k <= 6 marked blocks are enumerated per case. Oracle: every part of EVERY node (unwrap_generic) is numerically equal (==, so -0 = +0) across all representations, and the explicit-zero representation equals the reference algebra (32 u e). 10% of the cases call the operator impls of the public Derivative container directly (18 operator impls incl. &a-&b, tr_mul, scalar ops, compound assignments, all shapes 1..3 x 1..3) against plain nalgebra matrices. Cases with a non-finite intermediate are out of domain. Non-trivial: in some representation an absent block of the left operand meets a present block of the right operand in -, * or /.".into()
+        "generated: a program (as in C03) or a HISTORY (a sequence of compound assignments += -= *= /= with dual and scalar right-hand sides, scalar ops and unary functions applied to an accumulator) on every type with optional parts (DualVec, Dual2Vec, HyperDualVec static and dynamic, nested ones); inputs whose optional blocks are all-zero with probability 45% are marked, and ALL 2^k representations (absent vs explicit zeros) of the k <= 6 marked blocks are enumerated per case. Oracle: every part of EVERY node (unwrap_generic) is numerically equal (==, so -0 = +0) across all representations, and the explicit-zero representation equals the reference algebra (32 u e). 10% of the cases call the operator impls of the public Derivative container directly (18 operator impls incl. &a-&b, tr_mul, scalar ops, compound assignments, all shapes 1..3 x 1..3) against plain nalgebra matrices. Another 10% call the driver functions gradient, jacobian, try_jacobian, hessian and partial_hessian (dynamic sizes 1..4, static 2/3) on a generated function R^n -> R^m whose 1..2 constants are handed in either as absent or as explicit-zero parts (every block of every constant: all 2^(blocks*constants) representations), with outputs that are program nodes, bare constants or bare variables; the returned values, gradients, Jacobians and Hessians must be numerically equal across representations. Cases with a non-finite intermediate are out of domain. Non-trivial: in some representation an absent block of the left operand meets a present block of the right operand in -, * or /; driver cases: a constant is used (Jacobians: a bare-constant output precedes a non-constant output).".into()
     }
     fn assumptions() -> Vec<String> {
         vec!["k <= 6 marked blocks per case; values finite".into()]
